@@ -77,7 +77,7 @@ func init() {
 			{Name: "l2-ticker", Fn: scnC16L2, Weight: 1},
 			{Name: "l2-stalled-loop", Fn: scnC16Stall, Weight: 1},
 		},
-		Rule: "l1: histories of arrivals separated by fake-clock sleeps with cleanup calls whose cut-offs lie strictly between arrival instants (and far past / far future), keep-alive records of waiting sessions, waiting logins superseded by a later login of the same PID; " +
+		Rule: "l1: histories of arrivals separated by fake-clock sleeps with cleanup calls whose cut-offs lie strictly between arrival instants (and far past / far future), keep-alive records of waiting sessions, waiting logins superseded by a later login of the same PID, one run in twelve with 150-350 sessions and logins waiting at once; " +
 			"l2: the real Read loop with its real one-minute ticker, second half arriving after a gap swept over 1..59 s and 121 s..10 min of simulated time (60-120 s generated, not judged); " +
 			"l2-stalled-loop: the Read goroutine is withheld for 35-85 simulated seconds (slow-thread fault) so that ticks are served late, halves 5-54 s apart must still correlate; " +
 			"non-trivial = a cleanup call (or ticker firing) happened between the two halves of a session; distinct = distinct (history hash, schedule hash)",
@@ -509,6 +509,11 @@ func scnC16L1(rc *RunCtx) {
 	k := NewKaudit()
 	w := &L1World{}
 	n := 1 + t.Choose(3, "n")
+	if t.Choose(12, "crowd") == 11 {
+		// a burst: dozens of sessions and logins wait at the same time
+		n = 150 + t.Choose(200, "crowd.n")
+		rc.Sim.Count("c16.crowd")
+	}
 	// timeline in whole seconds; cleanup cut-offs at x.5 s so that no age ever equals a cut-off
 	type arrival struct {
 		at int // seconds
@@ -534,7 +539,7 @@ func scnC16L1(rc *RunCtx) {
 		if loginFirst && t1 > 1 && t.Choose(4, "superseded") == 3 {
 			// an earlier sshd process with the same PID logged in but never got an audit session;
 			// its login still waits when this one arrives and is superseded by it
-			g := &Session{Ses: fmt.Sprint(990 + si), PID: pid, UID: 1100 + si, Kind: "login-only"}
+			g := &Session{Ses: fmt.Sprint(5000 + si), PID: pid, UID: 1100 + si, Kind: "login-only"}
 			g.Login = GenLogin(t, pid, 50+si)
 			ghosts = append(ghosts, g)
 			tl = append(tl, arrival{t.Choose(t1, "superseded.at"), HOp{Kind: "login", S: n + len(ghosts) - 1}})
